@@ -17,6 +17,9 @@ def parseFramer (s : String) : Option FramerSpec :=
   | ["ld", l, b] => (l.toNat?).map fun n => .ld ⟨n, b == "1"⟩
   | ["any", h] => (parseHex h).map .any
   | ["char", c] => (c.toNat?).map fun n => .any (String.singleton (Char.ofNat n)).toUTF8.toList
+  -- the same framers constructed through `Default::default()` instead of `new()`
+  | ["chard", c] => (c.toNat?).map fun n => .any (String.singleton (Char.ofNat n)).toUTF8.toList
+  | ["ldd"] => some (.ld ⟨4, true⟩)
   | ["noop"] => some .noop
   | _ => none
 
